@@ -25,6 +25,17 @@
 //!   control stream (`00 04 len payload`, delivered in two chunks when `0 < cut < total`) fed into
 //!   a real connection driven by `accept()` / `poll_close()`; what `settings()` reports
 //!   before/between/after (`mfs/wt/ec/dg/wts`) and `open` or `closed <CODE>` as the peer sees it.
+//! * `set applyq <role> <payload> <cut> <pre1,pre2,..>`: as `set apply`, but the peer has opened other
+//!   unidirectional streams BEFORE its control stream, each with an incomplete stream header (`-` = no
+//!   byte yet, `40` = first byte of a two-byte type, `4054` / `54` / `01` = WebTransport / push type
+//!   without the session / push id): they sit in front of the control stream in
+//!   `pending_recv_streams` and answer `Pending`.  A header that is complete is `bad-op`.
+//! * `set cfgw <role> <k1,k2,..> [cfg keys as for set cfg]`: `set cfg` under back-pressure: every
+//!   stream starts without write credit; after the first poll of `build` the control stream is
+//!   granted `k1`, `k2`, ... bytes (cycling), one poll of `build` after each grant, at most
+//!   `CFGW_ROUNDS` grants (the other setup streams get unlimited credit).  Output as `set cfg` plus
+//!   ` pieces=<number of partial writes the transport accepted on the control stream>`, or
+//!   `pending wrote=<control stream bytes so far> pieces=<n>` when `build` has not returned by then.
 use crate::sim::*;
 use crate::util::*;
 use bytes::{Buf, Bytes};
@@ -247,7 +258,16 @@ fn cx_poll<T>(f: impl FnOnce(&mut Context<'_>) -> T) -> T {
     f(&mut cx)
 }
 
+type ServerFut = Pin<Box<dyn Future<Output = Result<h3::server::Connection<SimConn, Bytes>, h3::error::ConnectionError>>>>;
+type ClientFut = Pin<Box<dyn Future<Output = Result<ClientPair, h3::error::ConnectionError>>>>;
+
 fn build_server(net: &NetRef, c: &Cfg) -> Poll<Result<h3::server::Connection<SimConn, Bytes>, h3::error::ConnectionError>> {
+    let mut f = server_future(net, c);
+    poll_once(&mut f)
+}
+
+/// the future of `builder.build(conn)` with exactly the builder calls named on the line
+fn server_future(net: &NetRef, c: &Cfg) -> ServerFut {
     let mut bd = h3::server::builder();
     if let Some(v) = c.mfs {
         bd.max_field_section_size(v);
@@ -270,13 +290,18 @@ fn build_server(net: &NetRef, c: &Cfg) -> Poll<Result<h3::server::Connection<Sim
     if let Some(s) = c.seed {
         fastrand::seed(s);
     }
-    let mut f: Pin<Box<dyn Future<Output = _>>> = Box::pin(bd.build::<_, Bytes>(SimConn { net: net.clone() }));
-    poll_once(&mut f)
+    let conn = SimConn { net: net.clone() };
+    Box::pin(async move { bd.build::<_, Bytes>(conn).await })
 }
 
 type ClientPair = (h3::client::Connection<SimConn, Bytes>, h3::client::SendRequest<SimOpen, Bytes>);
 
 fn build_client(net: &NetRef, c: &Cfg) -> Option<Poll<Result<ClientPair, h3::error::ConnectionError>>> {
+    let mut f = client_future(net, c)?;
+    Some(poll_once(&mut f))
+}
+
+fn client_future(net: &NetRef, c: &Cfg) -> Option<ClientFut> {
     // the client builder has no WebTransport options
     if c.wt.is_some() || c.wts.is_some() {
         return None;
@@ -297,8 +322,54 @@ fn build_client(net: &NetRef, c: &Cfg) -> Option<Poll<Result<ClientPair, h3::err
     if let Some(s) = c.seed {
         fastrand::seed(s);
     }
-    let mut f: Pin<Box<dyn Future<Output = _>>> = Box::pin(bd.build::<_, _, Bytes>(SimConn { net: net.clone() }));
-    Some(poll_once(&mut f))
+    let conn = SimConn { net: net.clone() };
+    Some(Box::pin(async move { bd.build::<_, _, Bytes>(conn).await }))
+}
+
+/// number of grant + poll rounds of `set cfgw`
+const CFGW_ROUNDS: usize = 96;
+
+/// `set cfgw`: poll `build` under back-pressure on the control stream
+fn drive_under_backpressure<T>(net: &NetRef, server: bool, pat: &[usize], f: &mut Pin<Box<dyn Future<Output = T>>>) -> Poll<T> {
+    let ctrl_id: u64 = if server { 3 } else { 2 };
+    // no stream has write credit: the first poll opens the streams and writes nothing
+    let mut r = poll_once(f);
+    let others: Vec<u64> = net.borrow().streams.keys().copied().filter(|id| *id != ctrl_id).collect();
+    for id in others {
+        net.borrow_mut().set_write_credit(id, UNLIMITED);
+    }
+    let mut i = 0;
+    while r.is_pending() && i < CFGW_ROUNDS {
+        net.borrow_mut().grant_write(ctrl_id, pat[i % pat.len()]);
+        r = poll_once(f);
+        i += 1;
+    }
+    r
+}
+
+/// `set cfgw`: the report of `set cfg`; a `build` that is still pending shows what the peer has seen so far
+fn cfgw_report<T>(net: &NetRef, server: bool, r: Poll<Result<T, h3::error::ConnectionError>>) -> String {
+    let n = pieces(net, server);
+    if r.is_pending() {
+        let ctrl_id: u64 = if server { 3 } else { 2 };
+        let ctrl = if net.borrow().streams.contains_key(&ctrl_id) { net.borrow().tx(ctrl_id) } else { vec![] };
+        return format!("pending wrote={} pieces={}", to_hex(&ctrl), n);
+    }
+    format!("{} pieces={}", setup_report(net, server, r), n)
+}
+
+fn pieces(net: &NetRef, server: bool) -> usize {
+    let ctrl_id: u64 = if server { 3 } else { 2 };
+    net.borrow().streams.get(&ctrl_id).map(|s| s.accepted.len()).unwrap_or(0)
+}
+
+/// is `b` an incomplete unidirectional stream header (`poll_type` answers `Pending` on it)?
+fn incomplete_uni_header(b: &[u8]) -> bool {
+    match rd_varint(b) {
+        None => true,
+        // PUSH and WEBTRANSPORT_UNI carry a second integer
+        Some((ty, rest)) => (ty == 0x01 || ty == 0x54) && rd_varint(rest).is_none(),
+    }
 }
 
 /// what the peer sees after `build`: every locally opened unidirectional stream; the control
@@ -507,6 +578,75 @@ pub fn handle(w: &[&str]) -> String {
                 let after = conn.rec();
                 format!("before={} mid={} after={} {}", before, mid, after, closed(&net))
             })
+        }
+        ["set", "applyq", role, h, cut, pre] => {
+            let (Some(p), Ok(cut)) = (parse_hex(h), cut.parse::<usize>()) else { return "bad-op".into() };
+            if *role != "server" && *role != "client" {
+                return "bad-op".into();
+            }
+            let pres: Option<Vec<Vec<u8>>> = pre.split(',').map(parse_hex).collect();
+            let Some(pres) = pres else { return "bad-op".into() };
+            if pres.is_empty() || pres.len() > 8 || !pres.iter().all(|b| incomplete_uni_header(b)) {
+                return "bad-op".into();
+            }
+            guarded(|| {
+                let net = Net::new(*role == "server");
+                let Some(mut conn) = Conn::new(role, &net) else { return "setup-failed".into() };
+                let mut bytes = vec![0u8];
+                bytes.extend_from_slice(&settings_frame(&p));
+                let before = conn.rec();
+                // the peer's unidirectional streams: 2, 6, 10, .. towards a server, 3, 7, 11, .. towards a client
+                let mut id = peer_control_id(role);
+                for pre in &pres {
+                    net.borrow_mut().peer_open(id);
+                    if !pre.is_empty() {
+                        net.borrow_mut().peer_send(id, Rx::Chunk(Bytes::from(pre.clone())));
+                    }
+                    id += 4;
+                }
+                net.borrow_mut().peer_open(id);
+                let two = cut > 0 && cut < bytes.len();
+                let first = if two { bytes[..cut].to_vec() } else { bytes.clone() };
+                net.borrow_mut().peer_send(id, Rx::Chunk(Bytes::from(first)));
+                conn.drive();
+                let mid = conn.rec();
+                if two {
+                    net.borrow_mut().peer_send(id, Rx::Chunk(Bytes::from(bytes[cut..].to_vec())));
+                }
+                conn.drive();
+                let after = conn.rec();
+                format!("before={} mid={} after={} {}", before, mid, after, closed(&net))
+            })
+        }
+        ["set", "cfgw", role, pat, rest @ ..] => {
+            let Some(c) = parse_cfg(rest) else { return "bad-op".into() };
+            let pat: Option<Vec<usize>> = pat.split(',').map(|t| t.parse::<usize>().ok().filter(|k| *k <= 64)).collect();
+            let Some(pat) = pat else { return "bad-op".into() };
+            if pat.is_empty() || pat.len() > 64 {
+                return "bad-op".into();
+            }
+            match *role {
+                "server" => guarded(|| {
+                    let net = Net::new(true);
+                    net.borrow_mut().default_tx_credit = 0;
+                    let mut f = server_future(&net, &c);
+                    let r = drive_under_backpressure(&net, true, &pat, &mut f);
+                    cfgw_report(&net, true, r)
+                }),
+                "client" => {
+                    if c.wt.is_some() || c.wts.is_some() {
+                        return "bad-op".into();
+                    }
+                    guarded(|| {
+                        let net = Net::new(false);
+                        net.borrow_mut().default_tx_credit = 0;
+                        let mut f = client_future(&net, &c).unwrap();
+                        let r = drive_under_backpressure(&net, false, &pat, &mut f);
+                        cfgw_report(&net, false, r)
+                    })
+                }
+                _ => "bad-op".into(),
+            }
         }
         ["set", "apply2", role, h1, h2] => {
             let (Some(p1), Some(p2)) = (parse_hex(h1), parse_hex(h2)) else { return "bad-op".into() };
